@@ -267,6 +267,13 @@ def rand_stream(rng):
             for lv in range(dh + 1, d + dh + 1):
                 qm[lv] = {"HL": r.randrange(0, 6), "LH": r.randrange(0, 6), "HH": r.randrange(0, 8)}
             return qm
+        minq = 0
+        if rng.random() < 0.6:
+            # plenty of bytes and a forced minimum index: every slice of every picture is coded with the SAME quantisation
+            # index, larger than the matrix entries - anything remembered per index from the previous picture would be
+            # reused under the other matrix
+            cf = CodecFeatures(cf, picture_bytes=4 * cf["slices_x"] * cf["slices_y"] + 1500)
+            minq = rng.choice([8, 12, 20])
         cfa = CodecFeatures(cf, quantization_matrix=matrix(rng.randrange(10 ** 6)))
         cfb = CodecFeatures(cf, quantization_matrix=matrix(rng.randrange(10 ** 6)))
         if cf["picture_coding_mode"] == 1 and len(pics) % 2:
@@ -275,7 +282,7 @@ def rand_stream(rng):
         for i, p in enumerate(pics):
             p = copy.deepcopy(p)
             p.pop("pic_num", None)
-            units += make_picture_data_units(cfa if i % 2 == 0 else cfb, p)
+            units += make_picture_data_units(cfa if i % 2 == 0 else cfb, p, minq)
         units.append(DataUnit(parse_info=ParseInfo(parse_code=ParseCodes.end_of_sequence)))
         f = BytesIO()
         autofill_and_serialise_stream(f, Stream(sequences=[Sequence(data_units=units)]))
